@@ -14,8 +14,8 @@ import types
 from .values import sig
 from .driver import make_exc
 
-ASYNC_FLAVOURS = ("agen", "aclass", "aclass_noclose", "aplain", "agenlike", "aeager", "aeagerstop", "aproxy", "areiter", "alateclose", "agencoro")
-SYNC_FLAVOURS = ("list", "seq", "iter", "tuple", "tuplesub", "reiter", "sgen", "ringlist", "range", "iter_noasync", "iter_hint0")
+ASYNC_FLAVOURS = ("agen", "aclass", "aclass_noclose", "aplain", "agenlike", "aeager", "aeagerstop", "aproxy", "areiter", "alateclose", "agencoro", "aclass_awaitable")
+SYNC_FLAVOURS = ("list", "seq", "iter", "tuple", "tuplesub", "reiter", "sgen", "ringlist", "range", "iter_noasync", "iter_hint0", "iter_awaitable")
 SRC_FLAVOURS = ASYNC_FLAVOURS + SYNC_FLAVOURS
 FN_FLAVOURS = ("def", "async", "partial", "obj", "objaw", "falsyobj", "eqobj", "unhashobj", "aeqobj", "gencoro", "classaw", "defcoro", "eagercoro")
 
@@ -148,6 +148,17 @@ class SyncHintSource(SyncSource):
 
     def __length_hint__(self):
         return 0
+
+
+class SyncAwaitableSource(SyncSource):
+    """a regular iterator that is ALSO awaitable (a lazy result set: ``await rs`` would load everything): handed to a
+    tool as an iterable it is iterated, never awaited"""
+
+    def __await__(self):
+        from .values import AwaitedDataError
+
+        raise AwaitedDataError(("source", self.name))
+        yield  # pragma: no cover
 
 
 class SyncGenSource(SourceBase):
@@ -351,6 +362,16 @@ class AGenCoroSource(AClassSource):
     @types.coroutine
     def aclose(self):
         return (yield from AClassSource.aclose(self).__await__())
+
+
+class AAwaitableSource(AClassSource):
+    """a class based async iterator that is also awaitable"""
+
+    def __await__(self):
+        from .values import AwaitedDataError
+
+        raise AwaitedDataError(("source", self.name))
+        yield  # pragma: no cover
 
 
 class ALateCloseSource(AClassSource):
@@ -604,6 +625,8 @@ _SRC_CLASSES = {
     "seq": SeqSource,
     "sgen": SyncGenSource,
     "iter_noasync": SyncNoAsyncSource,
+    "iter_awaitable": SyncAwaitableSource,
+    "aclass_awaitable": AAwaitableSource,
     "iter_hint0": SyncHintSource,
     "iter": SyncSource,
 }
